@@ -6,6 +6,10 @@ RE=${1:-.}
 cd /verif
 W=/tmp/wt-matrix.$$
 git -C /repo worktree add -q --detach $W HEAD || exit 2
+# the checks are built from a snapshot of /verif taken now, so that the sources can be edited while the matrix runs
+SNAP=/tmp/verif-snap.$$
+mkdir -p $SNAP && rsync -a --exclude .cache --exclude .git --exclude seeded --exclude evidence --exclude replays --exclude .bin /verif/ $SNAP/
+export GOCACHE=/verif/.cache/go-build
 for d in $(ls seeded | grep -E '^C[0-9]+-[a-z]$' | grep -E -- "$RE"); do
   props=$(echo $d | cut -d- -f1)
   [ "$d" = "C04-b" ] && props="C04 C10"
@@ -13,7 +17,7 @@ for d in $(ls seeded | grep -E '^C[0-9]+-[a-z]$' | grep -E -- "$RE"); do
   base=$(/verif/bin/baseline.sh $W | head -1)
   grep -v "^$d	" seeded/RESULTS.tsv > seeded/RESULTS.tmp
   for P in $props; do
-    out=$(VERIF_OUT=$W.out VERIF_REPO=$W bin/check.sh $P quick 2>&1)
+    out=$(VERIF_ROOT=$SNAP VERIF_OUT=$W.out VERIF_REPO=$W $SNAP/bin/check.sh $P quick 2>&1)
     rc=$?
     keys=$(echo "$out" | grep -E '^VIOLATION' | sed -E 's/.* key=([^ ]+) cases.*/\1/' | head -4 | tr '\n' ' ')
     n=$(echo "$out" | grep -cE '^VIOLATION')
@@ -21,4 +25,4 @@ for d in $(ls seeded | grep -E '^C[0-9]+-[a-z]$' | grep -E -- "$RE"); do
   done
   sort seeded/RESULTS.tmp > seeded/RESULTS.tsv; rm -f seeded/RESULTS.tmp
 done
-cd /; git -C /repo worktree remove --force $W; rm -rf $W.out
+cd /; git -C /repo worktree remove --force $W; rm -rf $W.out $SNAP
